@@ -535,11 +535,18 @@ impl PartitionnedMonotonic<Intervals<f64>, (f64,), Term<Intervals<f64>, Unit>, f
                     .map_bounds(move |b| b - shift * period)
                     .union(set.map_bounds(|b| b - (shift + 1.) * period))
             };
-            partitions
+            let parts: Vec<Intervals<f64>> = partitions
                 .as_ref()
                 .iter()
-                .map(move |partition| shifted.clone().intersection(partition.clone()))
-                .collect()
+                .map(|partition| shifted.clone().intersection(partition.clone()))
+                .collect();
+            if parts.iter().all(|part| part.is_empty()) {
+                // A point on the boundary of the period may be shifted just outside of it by rounding:
+                // every phase is then possible
+                partitions.as_ref().iter().cloned().collect()
+            } else {
+                parts
+            }
         };
         Self::new(
             Term::from_value_next(Intervals::default(), Unit),
